@@ -328,7 +328,7 @@ Example multisig_count_mismatch_refuted :
   exists t' r, lib_parse_body (spec_ser t_ms_mismatch) = Some (t', r) /\ lib_raw t' = Some (spec_ser t_ms_mismatch).
 Proof.
   split; [vm_compute; reflexivity|]. split; [vm_compute; reflexivity|].
-  eexists. eexists. split; vm_compute; reflexivity.
+  eexists. eexists. split; [vm_compute; reflexivity|]. vm_compute. reflexivity.
 Qed.
 
 Example target_genesis : lib_target (be_bytes 4 486604799) = Some (65535 * 2 ^ 208).
